@@ -185,31 +185,57 @@ func c18Types(p *Prog, r *Report) {
 
 func c18Immutable(p *Prog, r *Report) {
 	const rule = "C18.immutable"
-	r.Rule(rule, "fields of a request that backend reader goroutines read without the request mutex are written only while the request is being built")
+	r.Rule(rule, "a field of a request that is read somewhere without the request mutex (by the connection's writer goroutine, a backend reader, a sender object) is written only while the request is being built")
 	req := p.proxyRequestType()
 	fns := p.ScopedFuncs("proxy")
-	for _, name := range []string{"client", "session", "stream", "version", "frm", "msg", "keyspace", "isSelect", "qp"} {
-		f := p.FieldOpt("proxy", req.Obj().Name(), name)
-		if f == nil {
-			fatalf("anchor: field %s.%s not found", req.Obj().Name(), name)
+	la := lockAnalyse(p)
+	st, _ := req.Underlying().(*types.Struct)
+	var mu *types.Var
+	for i := 0; i < st.NumFields(); i++ {
+		if isMutexType(st.Field(i).Type()) {
+			mu = st.Field(i)
 		}
-		var bad []string
+	}
+	if mu == nil {
+		fatalf("anchor: the request type has no mutex")
+	}
+	nUnlocked := 0
+	for i := 0; i < st.NumFields(); i++ {
+		f := st.Field(i)
+		if isMutexType(f.Type()) {
+			continue
+		}
+		var unlockedReads, lateWrites, esc []string
 		n := 0
 		for _, acc := range fieldAccesses(fns, f) {
 			n++
+			if al, ok := acc.Base.(*ssa.Alloc); ok && al.Parent() == acc.Fn {
+				continue // construction
+			}
 			if !acc.Write {
 				if strings.HasPrefix(acc.Kind, "addr-") {
-					bad = append(bad, fmt.Sprintf("%s: address escapes in %s", p.Pos(acc.Instr.Pos()), acc.Fn.Name()))
+					esc = append(esc, fmt.Sprintf("%s: address escapes in %s", p.Pos(acc.Instr.Pos()), acc.Fn.Name()))
+				}
+				if la.mustAt[acc.Instr][mu] == "" {
+					unlockedReads = append(unlockedReads, fmt.Sprintf("%s (%s)", p.Pos(acc.Instr.Pos()), acc.Fn.Name()))
 				}
 				continue
 			}
-			if al, ok := acc.Base.(*ssa.Alloc); ok && al.Parent() == acc.Fn {
-				continue
-			}
-			bad = append(bad, fmt.Sprintf("%s: written after construction in %s", p.Pos(acc.Instr.Pos()), acc.Fn.Name()))
+			lateWrites = append(lateWrites, fmt.Sprintf("%s: written after construction in %s", p.Pos(acc.Instr.Pos()), acc.Fn.Name()))
 		}
-		r.check(len(bad) == 0 && n > 0, rule, req.Obj().Name()+"."+name, p.Pos(f.Pos()), fmt.Sprintf("%d accesses", n), strings.Join(dedupe(bad), " || "))
+		if len(unlockedReads) == 0 {
+			continue // only ever read under the mutex: the guarded-by rules speak for it
+		}
+		nUnlocked++
+		var bad []string
+		if len(lateWrites) > 0 {
+			bad = append(bad, lateWrites...)
+			bad = append(bad, "read without the mutex at "+unlockedReads[0])
+		}
+		bad = append(bad, esc...)
+		r.check(len(bad) == 0, rule, req.Obj().Name()+"."+f.Name(), p.Pos(f.Pos()), fmt.Sprintf("%d accesses, %d without the mutex, no write after construction", n, len(unlockedReads)), strings.Join(dedupe(bad), " || "))
 	}
+	r.Floor(rule, 5, "request fields read without the mutex")
 }
 
 func c18Codec(p *Prog, r *Report) {
